@@ -64,3 +64,15 @@ func init() {
 		},
 	})
 }
+
+func init() {
+	register(&propSpec{
+		ID: "C19", Level: "exploration",
+		QuickRuns: 3000, QuickSecs: 120, ThorRuns: 400000, ThorSecs: 1500,
+		Rule: "one evaluation = one seeded history: 1-4 (thorough: up to 6) instantiations of generic classes with 1-2 type parameters over {int, string, array, U} interleaved with 2-12 typed member writes (property or method parameter declared with the type parameter) of values {7, \"s\", [1], new U, new V} on any live instance; sequential, or in a third of the runs split over 2-3 spawned coroutines interleaved by the seeded scheduler. Every write's accept/reject outcome is compared with the same instance alone on a fresh VM and with a non-generic class declared with the concrete type. Distinct = distinct hash of (schedule, outcome vector); every case is non-trivial (at least one instantiation and two writes).",
+		Assume: []string{
+			"coercion rules are not modelled: the expected outcome comes from a non-generic class with the concrete declared type in the same build",
+			"accept/reject is observed as 'the assignment or call threw or not'",
+		},
+	})
+}
